@@ -148,6 +148,15 @@ func (ms *Modules) resolveIdentities() []error {
 	// define it (a newer revision of a submodule, say).
 	ms.typeDict.identities.dict = map[string]resolvedIdentity{}
 
+	// A submodule that no module includes (any longer, once a newer
+	// revision of it is loaded) is not visited below; its identities must
+	// not keep the values an earlier run computed for them.
+	for _, sub := range ms.SubModules {
+		for _, i := range sub.Identities() {
+			i.Values = nil
+		}
+	}
+
 	// Across all modules, read the identity values that have been extracted
 	// from them, and compile them into a "fully resolved" map that means that
 	// we can look them up based on the 'real' prefix of the module and the
